@@ -225,25 +225,25 @@ def writeRow (hasCharge : Bool) (a : Atom) (entity : Nat) : SiteRow :=
 
 /-- The annotation part of `atom_site` for one model. -/
 def writeRows (s : Structure) : List SiteRow :=
-  (s.atoms.zip (entityIds (s.atoms.map (·.chain)))).map fun (a, e) => writeRow s.hasCharge a e
+  List.zipWith (writeRow s.hasCharge) s.atoms (entityIds (s.atoms.map (·.chain)))
 
-/-- One model block: annotation rows with model number and coordinates filled in. -/
-def modelBlock (rows : List SiteRow) (k : Nat) (xyz : List Tok) : List SiteRow :=
-  (rows.zip xyz).map fun (r, c) => { r with model := (k : Int) + 1, xyz := c }
+/-- One model block (`_repeat` + coordinates + model number): the annotation rows with the model
+number `k`, the coordinates of that model and — unless the structure has `atom_id` — the running
+number `i+1, i+2, …` as `id` (`np.arange(1, total + 1)` over the repeated table). -/
+def modelBlock (hasId : Bool) (k : Int) : Nat → List SiteRow → List Tok → List SiteRow
+  | _, [], _ => []
+  | _, _, [] => []
+  | i, r :: rs, c :: cs =>
+    { r with model := k, xyz := c, id := if hasId then r.id else (i : Int) + 1 } ::
+      modelBlock hasId k (i + 1) rs cs
 
-def modelBlocks (rows : List SiteRow) : Nat → List (List Tok) → List (List SiteRow)
+def modelBlocks (hasId : Bool) (rows : List SiteRow) : Nat → List (List Tok) → List (List SiteRow)
   | _, [] => []
-  | k, xyz :: rest => modelBlock rows k xyz :: modelBlocks rows (k + 1) rest
+  | k, xyz :: rest => modelBlock hasId ((k : Int) + 1) (k * rows.length) rows xyz :: modelBlocks hasId rows (k + 1) rest
 
-def renumber : Nat → List SiteRow → List SiteRow
-  | _, [] => []
-  | k, r :: rs => { r with id := (k : Int) + 1 } :: renumber (k + 1) rs
-
-/-- `atom_site` as written by `set_structure` (`_repeat` for several models, `id` = `atom_id`
-if present, else 1..). -/
+/-- `atom_site` as written by `set_structure`. -/
 def writeSite (s : Structure) : List SiteRow :=
-  let rows := (modelBlocks (writeRows s) 0 s.coords).flatten
-  if s.hasAtomId then rows else renumber 0 rows
+  (modelBlocks s.hasAtomId (writeRows s) 0 s.coords).flatten
 
 /-- Identification of an atom in `struct_conn`: label_asym_id, label_comp_id, label_seq_id,
 label_atom_id, pdbx_PDB_ins_code. -/
